@@ -176,7 +176,7 @@ fn gen_c11(ch: &mut Chunker, r: &mut Rng, thorough: bool, scale: usize) {
 }
 
 fn gen_c12(ch: &mut Chunker, r: &mut Rng, thorough: bool, scale: usize) {
-    let n = if thorough { 6 } else { 5 };
+    let n = if thorough { 6 } else { 4 };
     for s in all_strings(&['a', '1', '-', '\u{4f60}', '!', ' '], n) {
         for sp in [Splitter::None, Splitter::Hyphen, Splitter::Every2] {
             rec_split(ch, &s, sp);
